@@ -329,3 +329,55 @@ func TestC11_R_F22_EmptyFileThroughFramingRawCodec(t *testing.T) {
 		}
 	}
 }
+
+// The largest chunk the size chunker accepts (1 MiB) through raw codecs that frame their blocks: the stored leaf is then
+// larger than a MiB; the build succeeds and every recorded size is the stored one.
+func TestC11_R_LargestChunksThroughFramingRawCodecs(t *testing.T) {
+	for _, env := range []int{1, 8, RawEnvelopeUvarint, RawEnvelopeStuffed} {
+		for _, chunker := range []string{"size-1048576", "size-1048575"} {
+			st := NewStore()
+			st.RawEnvelope = env
+			root, size, err := buildFile(st, lcgBytes(2<<20+12345, 5, 0), chunker, 174)
+			if err != nil {
+				t.Fatalf("C11: file of 2 MiB + 12345 bytes, chunker %s, raw codec with envelope %d (-1 uvarint prefix, -2 byte stuffing): %v", chunker, env, err)
+			}
+			want, err := st.CumulativeSize(root, nil)
+			if err != nil || want != size {
+				t.Fatalf("C11: chunker %s, envelope %d: returned size %d, true cumulative size %d (%v)", chunker, env, size, want, err)
+			}
+			if _, err := verifySizes(st, root, nil); err != nil {
+				t.Fatalf("C11: chunker %s, envelope %d: %v", chunker, env, err)
+			}
+		}
+	}
+}
+
+// Directories whose size estimate reaches the auto-sharding threshold exactly at an entry that is not the last one: the
+// returned size is the true cumulative size whichever form the directory takes.
+func TestC11_R_DirectoriesRunningOntoTheShardingThreshold(t *testing.T) {
+	for _, more := range []int{0, 1, 10, 900} {
+		var es []entrySpec
+		ext := map[cid.Cid]uint64{}
+		for i := 0; i < 4096+more; i++ {
+			e := entryForKind(fmt.Sprintf("entry-%022d", i), 3, 0) // 28-byte names + 36-byte CIDv1 links = 64 bytes each
+			e.Tsize = uint64(1000 + i)
+			if len(e.Name)+e.Cid.ByteLen() != 64 {
+				t.Fatalf("harness: entry weighs %d", len(e.Name)+e.Cid.ByteLen())
+			}
+			es = append(es, e)
+			ext[e.Cid] = e.Tsize
+		}
+		st := NewStore()
+		root, size, err := buildDir(st, es)
+		if err != nil {
+			t.Fatal(err)
+		}
+		want, err := st.CumulativeSize(root, ext)
+		if err != nil || want != size {
+			t.Fatalf("C11: directory of 4096 entries of 64 bytes each (estimate 262144 = the threshold) + %d more: returned size %d, true cumulative size %d (%v)", more, size, want, err)
+		}
+		if _, err := verifySizes(st, root, ext); err != nil {
+			t.Fatalf("C11: directory of 4096+%d entries: %v", more, err)
+		}
+	}
+}
